@@ -242,6 +242,13 @@ func reachPhase(s *Sys, ph int) bool {
 	establish := func() bool {
 		s.Query(2, 1)
 		s.Pump(1, 2, 20)
+		if !enc() {
+			return false
+		}
+		// both sides have sent something in this session (so that there is a "most recent message")
+		s.Send(1, []byte("in-session text of one"))
+		s.Send(2, []byte("in-session text of two"))
+		s.Pump(1, 2, 10)
 		return enc()
 	}
 	switch ph {
@@ -354,6 +361,16 @@ func phaseSweep(c *Ctx, each func(s *Sys, pols []int)) {
 				s.Pump(1, 2, 12)
 				s.Send(2, []byte(fmt.Sprintf("tail-two-%d", k)))
 				s.Pump(1, 2, 12)
+				if k%2 == 0 {
+					// a further session, and a peer that asks for a retransmission: nothing of an ended session may reappear
+					s.tick(130)
+					s.Query(2, 1)
+					s.Pump(1, 2, 24)
+					s.Inject(1, []byte("?OTR Error: again please"), fmt.Sprintf("WError %s", coqBytes([]byte("again please"))))
+					s.Pump(1, 2, 24)
+					s.Send(1, []byte(fmt.Sprintf("final-%d", k)))
+					s.Pump(1, 2, 12)
+				}
 				each(s, pols)
 			}
 		}
